@@ -273,8 +273,10 @@ def rule_r2(prog, res) -> None:
                 for x in ast.walk(ev.value):
                     if isinstance(x, ast.IfExp) and all(isinstance(a_, ast.Attribute) and (dotted(a_) or "").startswith("Closed.") for a_ in (x.body, x.orelse)):
                         dec_sub = x
-    if enc is None or dec is None or dec_sub is None:
+    if enc is None or dec is None:
         raise AnalysisError("C07.R2: closed-side encoding/decoding expressions not found (idiom not recognised)")
+    if dec_sub is None:
+        dec_sub = dec  # the decoded side does not reach a stored value (reported by the restore check below)
     closed_texts = sorted({unparse(x) for x in ast.walk(enc) if isinstance(x, ast.Attribute) and x.attr == "closed"})
     flag_names = sorted({n.id for n in ast.walk(dec.test) if isinstance(n, ast.Name) and n.id not in ("bool", "int")})
     read_calls = [x for x in ast.walk(dec_sub.test) if isinstance(x, ast.Call) and isinstance(x.func, ast.Attribute) and x.func.attr == "read"]
